@@ -16,7 +16,7 @@ from pymoca import __version__
 from . import generator
 from ._options import _merge_default_options
 from .alias_relation import AliasRelation
-from .model import CASADI_ATTRIBUTES, DelayArgument, Model, Variable
+from .model import CASADI_ATTRIBUTES, DelayArgument, Model, Variable, _contains_mx, _nested_list_to_mx
 
 logger = logging.getLogger("pymoca")
 
@@ -252,6 +252,9 @@ def save_model(
             for i, v in enumerate(getattr(model, key)):
                 for j, tmp in enumerate(CASADI_ATTRIBUTES):
                     attr = getattr(v, tmp)
+                    if _contains_mx(attr):
+                        # Array attribute with symbolic elements: a list of MX
+                        attr = _nested_list_to_mx(attr)
                     if isinstance(attr, ca.MX):
                         if not attr.is_constant() and ca.depends_on(attr, parameter_vector):
                             m[i, j] = _DepMeta.MX_DEPENDENT
